@@ -55,7 +55,7 @@ Proof.
     + unfold shape_ok. rewrite C, K1. repeat split; intros; try assumption; try discriminate; try congruence.
     + unfold penums_ok. rewrite M, S. split; [exact E1|split; [exact E2|split; [exact E3|split; apply none_ok]]].
   - destruct He as [Hk Hm]. inv_bind H. destruct (key_to_pie_shape _ _ _ E Hk) as (C & A & S & M & E1 & E2 & E3).
-    injection H as <-. split.
+    case_if H. injection H as <-. split.
     + unfold shape_ok; simpl. repeat split; intros; try assumption; try discriminate; try congruence.
     + unfold penums_ok; simpl. rewrite S. split; [exact E1|split; [exact E2|split; [exact E3|split; [exact Hm|apply none_ok]]]].
   - case_if H. injection H as <-. split.
@@ -110,7 +110,7 @@ Proof.
       - case_if H. exists CPriv. exact H. }
     destruct X as [c' X]. unfold key_to_pie in X. destruct (kb_alg kb); destruct (kb_len kb); simpl in X; try discriminate X.
     inv_bind X. injection X as <-. reflexivity.
-  - inv_bind H. injection H as <-. simpl. unfold key_to_pie in E. destruct (kb_alg kb); destruct (kb_len kb); simpl in E; try discriminate E.
+  - inv_bind H. case_if H. injection H as <-. simpl. unfold key_to_pie in E. destruct (kb_alg kb); destruct (kb_len kb); simpl in E; try discriminate E.
     inv_bind E. injection E as <-. reflexivity.
   - case_if H. injection H as <-. discriminate K.
   - injection H as <-. discriminate K.
